@@ -130,7 +130,10 @@ def run_modal(rep, logics, d, tag, maxw=3, workers=2, full=False):
     for L in logics:
         # 'two-nec' (three modal premises) is affordable only where the frame rules add nothing (K-based logics):
         # with reflexive / transitive closure its schedule space exceeds an hour of TLC time
-        args = {k: v for k, v in all_args.items() if k != 'two-nec' or (full and L in ('K', 'KFDE', 'KK3WQ', 'KB3E'))}
+        args = {k: v for k, v in all_args.items() if k != 'two-nec' or (full and L in ('K', 'D', 'KFDE'))}
+        if 'K3WQ' in L:
+            # the K3WQ possibility rule adds a necessity node and three-way forks per witness: two witnesses are out of reach
+            args = {k: v for k, v in args.items() if k not in ('poss-conj', 'nec-poss')}
         pf = d / f'{tag}-mpar-{L}.json'
         pf.write_text(json.dumps({'logic': L, 'args': list(args.values()), 'maxw': maxw}))
         calls.append(dict(module='TableauModalMC', cfg=MODAL_CFG, env={'RULES': rules_for(rules, L, d, tag + 'm'), 'PAR': pf}, workers=workers,
